@@ -182,7 +182,7 @@ func fail(c Case, r result, format string, a ...any) error {
 // whitespace)". The generators only ever produce space, tab, newline and CR
 // as whitespace, so this is the whole definition on the generated domain.
 func truthy(s string) bool {
-	return strings.Trim(s, " \t\n\r") != ""
+	return strings.Trim(s, " \t\n\r\v\f") != "" // ASCII white space (the six characters every definition agrees on)
 }
 
 func blank(s string) bool { return !truthy(s) }
